@@ -191,7 +191,9 @@ func runCheck(r *rt.Run) error {
 			t.Distinct(digest(S(tr)))
 		}
 		for _, d := range o.Devs {
-			if strings.HasPrefix(d, "obs:") {
+			if strings.HasPrefix(d, "obs:random:") {
+				obs["obs:random-script-deviates-in-pipeline/tick"]++
+			} else if strings.HasPrefix(d, "obs:") {
 				obs[d]++
 			}
 		}
@@ -230,6 +232,24 @@ func Scan(r *rt.Run) error {
 		n = 6000
 	}
 	items, extra := scriptItems(r, n)
+	// `reps K`: the deterministic items K times (Pipeline.Unmarshal iterates Go maps: the
+	// outcome for pipelines with forks / several parents differs from run to run)
+	for i, a := range r.Args {
+		if a == "reps" && i+1 < len(r.Args) {
+			k := 0
+			fmt.Sscan(r.Args[i+1], &k)
+			var det []item
+			for _, it := range items {
+				if it.Cls != "random" {
+					det = append(det, it)
+				}
+			}
+			items = nil
+			for j := 0; j < k; j++ {
+				items = append(items, det...)
+			}
+		}
+	}
 	fmt.Printf("grammar: %v\nitems: %d\n", extra, len(items))
 	outs := parallelEval(items, evalScript)
 	type cl struct {
